@@ -665,7 +665,7 @@ def outcomes(ctx, rng, factor):
     outs.append({"tag": "jar-unreadable", "kind": "exit", "code": 1, "stderr": JARFILE + " /opt/x/pyxform/validators/odk_validate/bin/ODK_Validate.jar\n"})
     outs.append({"tag": "jar-corrupt", "kind": "exit", "code": 1, "stderr": "Error: Invalid or corrupt jarfile /opt/x/pyxform/validators/odk_validate/bin/ODK_Validate.jar\n"})
     # validator output SIZE as an input dimension: around the pipe capacity and well beyond, on stderr and on stdout
-    sizes = ctx.pick([65535, 65537, 1 << 20], [4096, 65535, 65536, 65537, 200000, 1 << 20])
+    sizes = ctx.pick([65537, 1 << 20], [4096, 65535, 65536, 65537, 200000, 1 << 20])
     for n in sizes:
         line = "Error: problem at " + "/data/g/q1 \n"
         big = (line * (n // len(line) + 1))[:n]
@@ -742,11 +742,15 @@ def explore(ctx, factor, bs):
                     continue
                 if limited and outcome["tag"] not in ("exit0-silent", "exit0-stderr", "exit>0-named-paths", "java-absent", "killed"):
                     continue  # validator never reached (failed write, conversion error) / same path as `warn`: a few environments suffice
+                if outcome.get("big") and ctx.quick() and fid != "plain":
+                    continue
                 if outcome.get("big") and ctx.dist.get("validator-run-blocked", 0) >= 3:
                     continue  # each blocked run costs seconds: three concrete inputs are enough
                 for mode in modes(rng):
                     if outcome.get("big") and not (mode["kind"] == "lib" and mode["validate"] or
                                                    (mode["kind"] == "cli" and not mode.get("skip") and not mode.get("odk"))):
+                        continue
+                    if outcome.get("big") and ctx.quick() and mode["kind"] == "cli" and not mode.get("json"):
                         continue
                     if f.get("lib_only"):
                         if mode["kind"] != "lib":
